@@ -387,6 +387,33 @@ def rule_flush(chk, prog, tier):
                     work.append((m, f2))
             r.instance(not reached, 'input-ferror-before-close:%s' % gg.fn['name'], '%s:%s' % (gg.fn['_file'], cl.line),
                        '%s() can close an input stream after reading its end without testing ferror(): a read error on any input but the last is taken for a clean end of file' % gg.fn['name'])
+        # ... and the last input: no path on which the token just read is known to be TEOF leaves the function without the test
+        seen = set(); work = [(m, None) for rd in reads for m, _ in rd.succ]; leak = None
+        def eof_test2(n):
+            a = unwrap_all(n.ast) if n.kind == 'cond' and n.ast is not None else None
+            if a is not None and a.get('kind') == 'BinaryOperator' and a.get('opcode') in ('==', '!='):
+                rhs = unwrap_all(children(a)[1])
+                if rhs.get('kind') == 'DeclRefExpr' and rhs['referencedDecl'].get('name') == 'TEOF': return a['opcode']
+            return None
+        while work and leak is None:
+            x, fact = work.pop()
+            if (x.id, fact) in seen: continue
+            seen.add((x.id, fact))
+            if x.ast is not None and any(callee_name(c) == 'ferror' and not stream_arg(c, 0, 'stdout') for c in walk(x.ast) if c.get('kind') == 'CallExpr'): continue
+            if x.kind in ('exit', 'ret') or x.id == gg.exit.id:
+                if fact is True: leak = x
+                continue
+            if x.id in {rd.id for rd in reads}: continue
+            op = eof_test2(x)
+            for m, lab in x.succ:
+                f2 = fact
+                if op is not None and lab in (True, False):
+                    iseof = (lab is True) == (op == '==')
+                    if fact is not None and fact != iseof: continue
+                    f2 = iseof
+                work.append((m, f2))
+        r.instance(leak is None, 'input-ferror-at-end:%s' % gg.fn['name'], '%s:%s' % (gg.fn['_file'], gg.fn.get('line')),
+                   '%s() can return an end-of-file token without having tested ferror() on the stream: a read error on the last (or only) input is taken for a clean end of file' % gg.fn['name'])
     if nclose == 0:
         raise AnalysisBroken('no function that reads tokens and closes an input found (scan() expected)')
     r.exhaustive = True
